@@ -50,10 +50,12 @@ func (dg *defaultGrowerPipeline) worker(ctx context.Context, wg *sync.WaitGroup,
 		case <-ctx.Done():
 			return
 		case root, ok := <-roots:
+			verifPoint("grow.recv")
 			if !ok {
 				return
 			}
 			if err := dg.assemble(root); err != nil {
+				verifPoint("grow.err")
 				errc <- err
 				return
 			}
@@ -92,6 +94,7 @@ func (*nopGrowerPipeline) grow(ctx context.Context, roots <-chan *Node) (<-chan 
 			case <-ctx.Done():
 				return
 			case root, ok := <-roots:
+				verifPoint("grow.recv")
 				if !ok {
 					break BREAK
 				}
